@@ -89,8 +89,11 @@ class CAMReceptionManagement:
         generation_delta_time = GenerationDeltaTime(
             msec=cam["cam"]["generationDeltaTime"]
         )
+        # Integer microseconds first: the float product ``seconds * 1000`` can fall just below the
+        # millisecond the clock shows and be truncated to the previous one, which dates a message
+        # received in its own generation millisecond one generationDeltaTime cycle (65 536 ms) early.
         utc_timestamp = generation_delta_time.as_timestamp_in_certain_point(
-            int(TimeService.time() * 1000)
+            round(TimeService.time() * 1_000_000) // 1000
         )
         cam["utc_timestamp"] = utc_timestamp
 
